@@ -20,6 +20,8 @@ func c15Schema() dyn.Schema {
 			{Name: "peer", K: 'o', KT: 'u', RefTable: "N", RefType: "strong"},
 			{Name: "kids", K: 's', KT: 'u', Max: -1, RefTable: "M", RefType: "strong"}}},
 		{Name: "M", Cols: []val.Col{{Name: "name", K: 'a', KT: 's'}, {Name: "back", K: 'o', KT: 'u', RefTable: "N", RefType: "weak"}}},
+		// a table without any uuid column: the only uuid position is _uuid
+		{Name: "P", IsRoot: true, Cols: []val.Col{{Name: "name", K: 'a', KT: 's'}, {Name: "n", K: 'a', KT: 'i'}, {Name: "tags", K: 's', KT: 's', Max: -1}}},
 	}}
 }
 
@@ -35,6 +37,8 @@ func c15Txn(tg *txnGen) []TOp {
 		t := "N"
 		if g.Chance(0.3) {
 			t = "M"
+		} else if g.Chance(0.3) {
+			t = "P"
 		}
 		u := ""
 		if g.Chance(0.7) {
@@ -65,6 +69,14 @@ func c15Txn(tg *txnGen) []TOp {
 	}
 	rowWithNames := func(table string) map[string]val.Val {
 		r := map[string]val.Val{}
+		if table == "P" {
+			if n, ok := nameOf(""); ok && g.Chance(0.5) {
+				r["name"] = val.VA(val.Str(n)) // text equal to a name
+				r["tags"] = val.VS(val.Str(n))
+			}
+			r["n"] = val.VA(val.Int(int64(g.Intn(5))))
+			return r
+		}
 		if table == "M" {
 			if g.Chance(0.5) {
 				r["back"] = val.VSome(ref("N"))
@@ -110,6 +122,29 @@ func c15Txn(tg *txnGen) []TOp {
 	var ops []TOp
 	// operations using the names, placed before and after the inserts
 	use := func() TOp {
+		if g.Chance(0.3) {
+			// the row a name stands for, addressed by _uuid - the one uuid position every table has
+			t := []string{"N", "M", "P"}[g.Intn(3)]
+			wh := []Cond{{Col: "_uuid", Fn: []string{"==", "includes"}[g.Intn(2)], Arg: val.VA(ref(t))}}
+			if g.Chance(0.2) {
+				wh = []Cond{{Col: "_uuid", Fn: []string{"!=", "excludes"}[g.Intn(2)], Arg: val.VA(ref(t))}}
+			}
+			switch g.Intn(5) {
+			case 0:
+				return TOp{Kind: "select", Table: t, Where: wh}
+			case 1:
+				return TOp{Kind: "delete", Table: t, Where: wh}
+			case 2:
+				if t == "P" {
+					return TOp{Kind: "mutate", Table: t, Where: wh, Muts: []Mut{{Col: "n", Mutator: "+=", Arg: val.VA(val.Int(1))}}}
+				}
+				return TOp{Kind: "update", Table: t, Where: wh, Row: map[string]val.Val{"name": val.VA(val.Str("touched"))}}
+			case 3:
+				return TOp{Kind: "wait", Table: t, Where: wh, Cols: []string{"name"}, Until: "!=", Rows: []map[string]val.Val{}}
+			default:
+				return TOp{Kind: "update", Table: t, Where: wh, Row: map[string]val.Val{"name": val.VA(val.Str("renamed"))}}
+			}
+		}
 		switch g.Intn(10) {
 		case 5:
 			// delete from a uuid-keyed map by a set of keys (RFC 7047 5.1) holding names
@@ -252,6 +287,36 @@ func driveC15(o opts) error {
 							}
 						}
 					}
+				}
+			}
+			// a select by "_uuid == <name>" placed after the insert of that name finds the row under the uuid the
+			// insert reported (unless an operation in between may have deleted it)
+			for i, op := range ops {
+				if op.Kind != "select" || len(op.Where) != 1 || op.Where[0].Col != "_uuid" || (op.Where[0].Fn != "==" && op.Where[0].Fn != "includes") {
+					continue
+				}
+				u, named := nameUUID[op.Where[0].Arg.A.S]
+				if !named || u == "" || i >= len(ob.Results) || ob.Results[i].Kind != "rows" {
+					continue
+				}
+				at := -1
+				for j, op2 := range ops[:i] {
+					if op2.Kind == "insert" && op2.Name == op.Where[0].Arg.A.S && op2.Table == op.Table {
+						at = j
+					}
+				}
+				if at < 0 {
+					continue
+				}
+				deleted := false
+				for _, op2 := range ops[at+1 : i] {
+					if op2.Kind == "delete" && op2.Table == op.Table {
+						deleted = true
+					}
+				}
+				if _, found := ob.Results[i].Rows[u]; !found && !deleted {
+					return fmt.Sprintf("operation %d selects %s where _uuid %s the name %s of the row inserted by operation %d (uuid %s) and finds %d rows, not that row",
+						i, op.Table, op.Where[0].Fn, op.Where[0].Arg.A.S, at, u, len(ob.Results[i].Rows))
 				}
 			}
 			for i, op := range ops {
